@@ -26,10 +26,11 @@ Section Ops.
 
   Definition isFail (e : serr) : Prop := e = SFail.
   Definition isNone {A} (o : option A) : Prop := o = None.
+  Definition errQ (o : outcome) : Prop := o <> OOk.
 
   Ltac quiet_go :=
     rsimp;
-    first [ apply qq_ret; first [exact I | reflexivity]
+    first [ apply qq_ret; first [exact I | reflexivity | (unfold errQ; discriminate)]
           | apply qq_rec; [cbn; discriminate | intro; quiet_go] ].
 
   Ltac hq_step :=
@@ -58,19 +59,19 @@ Section Ops.
     | _ => hq_step
     end.
 
-  Lemma hq_uninstall fl : OpsRProofs.hqQ anyQ (uninstallR fl).
+  Lemma hq_uninstall fl : OpsRProofs.hqQ errQ (uninstallR fl).
   Proof. unfold uninstallR. repeat hq_step. Qed.
 
-  Lemma hq_rollback fl : OpsRProofs.hqQ anyQ (rollbackR rn ns fl).
+  Lemma hq_rollback fl : OpsRProofs.hqQ errQ (rollbackR rn ns fl).
   Proof. unfold rollbackR. repeat hq_step1. Qed.
 
-  Lemma hq_install_fail fl rel : OpsRProofs.hqQ anyQ (install_failR fl rel).
+  Lemma hq_install_fail fl rel : OpsRProofs.hqQ errQ (install_failR fl rel).
   Proof.
     unfold install_failR. destruct (f_atomic fl); [|repeat hq_step].
     eapply hq_rbind; [apply hq_uninstall | intro; apply hq_ret | intros; quiet_go].
   Qed.
 
-  Lemma hq_upgrade_fail fl up created : OpsRProofs.hqQ anyQ (upgrade_failR rn ns fl up created).
+  Lemma hq_upgrade_fail fl up created : OpsRProofs.hqQ errQ (upgrade_failR rn ns fl up created).
   Proof.
     unfold upgrade_failR. repeat hq_step.
     all: try (eapply hq_rbind; [apply hq_rollback | intro; apply hq_ret | intros; quiet_go]).
@@ -84,14 +85,18 @@ Section Ops.
     | _ => hq_step1
     end.
 
-  Lemma hq_install fl c v m hs : OpsRProofs.hqQ anyQ (installR rn ns fl c v m hs).
+  Lemma hq_install fl c v m hs : OpsRProofs.hqQ errQ (installR rn ns fl c v m hs).
   Proof. unfold installR. repeat hq_step2. Qed.
 
-  Lemma hq_upgrade fl c v m hs : OpsRProofs.hqQ anyQ (upgradeR rn ns fl c v m hs).
+  Lemma hq_upgrade fl c v m hs : OpsRProofs.hqQ errQ (upgradeR rn ns fl c v m hs).
   Proof. unfold upgradeR. repeat hq_step2. Qed.
 
-  Theorem hq_op o : OpsRProofs.hqQ anyQ (op_progR rn ns o).
+  (* every handler of every operation is quiet AND ends in an error outcome *)
+  Theorem hq_op_err o : OpsRProofs.hqQ errQ (op_progR rn ns o).
   Proof. destruct o; cbn [op_progR]; [apply hq_install | apply hq_upgrade | apply hq_rollback | apply hq_uninstall]. Qed.
+
+  Theorem hq_op o : OpsRProofs.hqQ anyQ (op_progR rn ns o).
+  Proof. apply hq_weaken with (Q := errQ); [intros; exact I | apply hq_op_err]. Qed.
 
   (* ---- forgetting the handlers: the operations of Engine/Ops.v ---- *)
   Notation req := (req K kh dresp).
@@ -220,6 +225,22 @@ Section Final.
     - rewrite (erase_op K kh dresp rn ns o). rewrite <- run_op_led.
       destruct (run_op_D K kh dresp rn ns (mkSF None None) o l k eq_refl Hn Hd H2) as [A [B _]].
       split; assumption.
+  Qed.
+
+  (* an operation one of whose reads failed never reports success: either the read position is not
+     reached, and the run is the fault-free run of Engine/Ops.v (same ledger, cluster, outcome, trace), or
+     the outcome is an error *)
+  Theorem read_fault_never_success o n l k :
+    run_opR o n l k
+      = (let '(s, out) := run K kh dresp (mkSF None None) (op_prog rn ns o) (mkR l k 0 0 false []) in
+         (led s, ks s, out, tr s))
+    \/ snd (fst (run_opR o n l k)) <> OOk.
+  Proof.
+    unfold run_opR.
+    destruct (rfail_result K kh dresp errQ (op_progR rn ns o) (hq_op_err rn ns o) n (mkSF None None) (mkR l k 0 0 false [])) as [E | Q].
+    - left. rewrite E, (erase_op K kh dresp rn ns o). reflexivity.
+    - right. destruct (run K kh dresp (mkSF None None) (rfail n (op_progR rn ns o)) (mkR l k 0 0 false [])) as [s out].
+      exact Q.
   Qed.
 
   (* a read position the operation does not reach changes nothing: in particular [rfail n] of a
